@@ -243,6 +243,7 @@ func runMapOrder(c *vx.Ctx) {
 		c.Part("process").Incomplete("this binary was built without the runtime overlay")
 		return
 	}
+	// parts routing / reorg run only when asked for by name (--only), parts process / worker otherwise
 	proc, work := mapOrderCases(c.Thorough())
 	var c10prefix []*types.WorkObject
 	if c.Wants("process") {
@@ -310,6 +311,14 @@ func runMapOrder(c *vx.Ctx) {
 			}
 		}
 	}
+	if c.Only == "routing" {
+		mapOrderRouting(c)
+		return
+	}
+	if c.Only == "reorg" {
+		mapOrderReorg(c)
+		return
+	}
 	if c.Wants("worker") {
 		p := c.Part("worker")
 		p.Bound("draws", len(mapOrderDraws))
@@ -344,6 +353,153 @@ func runMapOrder(c *vx.Ctx) {
 	}
 }
 
+// ---- part "routing" (C04): every routing word under every draw ------------------------------------
+
+func mapOrderRoutingRun(word string, v uint64) (key, desc, cls string) {
+	setMapIter(true, v)
+	defer setMapIter(false, 0)
+	return c04RunWord(word, nil, false)
+}
+
+func mapOrderRouting(c *vx.Ctx) {
+	p := c.Part("routing")
+	maxLen := 3
+	if c.Thorough() {
+		maxLen = 4
+	}
+	words := c04Words(maxLen)
+	p.Bound("draws", len(mapOrderDraws))
+	p.Bound("word_length", maxLen)
+	for i, w := range words {
+		if !c.Mine(int64(i)) {
+			continue
+		}
+		if c.Expired() {
+			p.Incomplete("deadline")
+			return
+		}
+		p.States++
+		refKey, refDesc, refCls := mapOrderRoutingRun(w, 0)
+		if refKey == "harness" {
+			c.HarnessError(fmt.Sprintf("routing word %q: %s", w, refDesc))
+			return
+		}
+		if refKey != "" {
+			p.Outcome("fails-under-draw-0(C04 routing's business)")
+			continue
+		}
+		for _, v := range mapOrderDraws[1:] {
+			key, desc, cls := mapOrderRoutingRun(w, v)
+			if key == "harness" {
+				c.HarnessError(fmt.Sprintf("routing word %q draw %#x: %s", w, v, desc))
+				return
+			}
+			p.Transitions++
+			p.Traces++
+			if key == "" && cls != refCls {
+				key, desc = "result-differs", fmt.Sprintf("word %q ends with %s, under draw 0 with %s", w, cls, refCls)
+			}
+			if key != "" {
+				w, v := w, v
+				desc = fmt.Sprintf("map-iteration draw %#x: %s", v, desc)
+				if c.Confirm(desc, func() string {
+					k, _, c2 := mapOrderRoutingRun(w, v)
+					_, _, r2 := mapOrderRoutingRun(w, 0)
+					if k == "" && c2 != r2 {
+						k = "result-differs"
+					}
+					return k
+				}) {
+					c.Violate("routing", "map-order:routing:"+key, desc, map[string]any{"word": w, "draw": v, "part": "routing"})
+				}
+				break
+			}
+		}
+		p.Outcome("equal:" + refCls[:strings.Index(refCls+",executed-list", ",executed-list")])
+	}
+}
+
+// ---- part "reorg" (C10): pairs of one-block branches under every draw ---------------------------
+
+func mapOrderReorgRun(prefix []*types.WorkObject, a, b int, v uint64) (key, desc string) {
+	// the branches are built under draw 0 (their own reference nodes), the switching node runs under v
+	setMapIter(true, 0)
+	ba, err := c10BuildBranch(prefix, []int{a}, 1)
+	if err != nil || ba == nil {
+		setMapIter(false, 0)
+		return "n/a", ""
+	}
+	bb, err := c10BuildBranch(prefix, []int{b}, 2)
+	setMapIter(false, 0)
+	if err != nil || bb == nil {
+		return "n/a", ""
+	}
+	setMapIter(true, v)
+	defer setMapIter(false, 0)
+	return c10RunPair(prefix, ba, bb, 3)
+}
+
+func mapOrderReorg(c *vx.Ctx) {
+	p := c.Part("reorg")
+	p.Bound("draws", len(mapOrderDraws))
+	p.Bound("branches", "all ordered pairs of distinct one-block branches over the C10 block contents, B/A/B switching")
+	ps, err := c10BuildPrefix()
+	if err != nil {
+		c.HarnessError("prefix: " + err.Error())
+		return
+	}
+	prefix := ps.blocks
+	ps.close()
+	var idx int64
+	for a := range c10Ops {
+		for b := range c10Ops {
+			if a == b {
+				continue
+			}
+			idx++
+			if !c.Mine(idx) {
+				continue
+			}
+			if c.Expired() {
+				p.Incomplete("deadline")
+				return
+			}
+			p.States++
+			refKey, _ := mapOrderReorgRun(prefix, a, b, 0)
+			if refKey == "n/a" {
+				p.Outcome("n/a")
+				continue
+			}
+			if refKey != "" {
+				p.Outcome("fails-under-draw-0(C10's business)")
+				continue
+			}
+			ok := true
+			for _, v := range mapOrderDraws[1:] {
+				key, desc := mapOrderReorgRun(prefix, a, b, v)
+				p.Transitions += 3
+				p.Traces++
+				if key == "harness" {
+					c.HarnessError(fmt.Sprintf("reorg %s/%s draw %#x: %s", c10Ops[a], c10Ops[b], v, desc))
+					return
+				}
+				if key != "" && key != "n/a" {
+					ok = false
+					a, b, v := a, b, v
+					desc = fmt.Sprintf("map-iteration draw %#x, A=[%s] B=[%s]: %s", v, c10Ops[a], c10Ops[b], desc)
+					if c.Confirm(desc, func() string { k, _ := mapOrderReorgRun(prefix, a, b, v); return k }) {
+						c.Violate("reorg", "map-order:reorg:"+key, desc, map[string]any{"a": a, "b": b, "draw": v, "part": "reorg"})
+					}
+					break
+				}
+			}
+			if ok {
+				p.Outcome("equal-under-every-draw")
+			}
+		}
+	}
+}
+
 func replayMapOrder(c *vx.Ctx, v vx.Violation) string {
 	core.VScaleParams(core.VR1)
 	if !mapIterAvail {
@@ -354,9 +510,31 @@ func replayMapOrder(c *vx.Ctx, v vx.Violation) string {
 		Case mapOrderCase `json:"case"`
 		Draw uint64       `json:"draw"`
 		Part string       `json:"part"`
+		Word string       `json:"word"`
+		A    int          `json:"a"`
+		B    int          `json:"b"`
 	}
 	if err := jsonUnmarshal(raw, &r); err != nil {
 		return "bad replay: " + err.Error()
+	}
+	if r.Part == "routing" {
+		k, d, cls := mapOrderRoutingRun(r.Word, r.Draw)
+		if k == "" {
+			if _, _, ref := mapOrderRoutingRun(r.Word, 0); ref != cls {
+				d = fmt.Sprintf("word %q ends with %s, under draw 0 with %s", r.Word, cls, ref)
+			}
+		}
+		return d
+	}
+	if r.Part == "reorg" {
+		ps, err := c10BuildPrefix()
+		if err != nil {
+			return "harness: " + err.Error()
+		}
+		prefix := ps.blocks
+		ps.close()
+		_, d := mapOrderReorgRun(prefix, r.A, r.B, r.Draw)
+		return d
 	}
 	if r.Part == "worker" {
 		_, desc, _, err := mapOrderWorker(r.Case, r.Draw)
@@ -494,6 +672,8 @@ func foldMapOrder(c *vx.Ctx, childPart string) {
 
 func c06MapOrder(c *vx.Ctx) { foldMapOrder(c, "process") }
 func c07MapOrder(c *vx.Ctx) { foldMapOrder(c, "worker") }
+func c04MapOrder(c *vx.Ctx) { foldMapOrder(c, "routing") }
+func c10MapOrder(c *vx.Ctx) { foldMapOrder(c, "reorg") }
 
 // replayViaVqm re-executes a map-order artefact in the vqm binary.
 func replayViaVqm(v vx.Violation) string {
